@@ -32,6 +32,7 @@ type fieldOpts struct {
 	Param     string
 	Encoding  *hashutil.Encoding
 	Length    int
+	HasLength bool
 	Inline    bool
 	Base      int
 }
@@ -181,6 +182,7 @@ func getRawTypeInfo(t reflect.Type) *typeInfo {
 		}
 		if st := indirectType(fi.Type); st.Kind() == reflect.Array && st.Elem().Kind() == reflect.Uint8 {
 			fi.Opts.Length = st.Len()
+			fi.Opts.HasLength = true
 		}
 		var part string
 		for tag != "" {
@@ -199,9 +201,10 @@ func getRawTypeInfo(t reflect.Type) *typeInfo {
 				fi.Opts.Group = true
 			case strings.HasPrefix(part, "length:"):
 				if v, err := strconv.ParseUint(part[7:], 10, 32); err == nil {
-					if fi.Opts.Length == 0 || int(v) < fi.Opts.Length {
+					if !fi.Opts.HasLength || int(v) < fi.Opts.Length {
 						fi.Opts.Length = int(v)
 					}
+					fi.Opts.HasLength = true
 				}
 			case part == "inline":
 				fi.Opts.Inline = true
